@@ -6,7 +6,7 @@ import random
 from .. import tlc, tracecheck, extract
 from ..core import REPO, uncps
 from ..lexrec import (LexRecorder, sigma_strings, SIGMA, SIGMA_QUICK,
-                      random_unicode, opener_mixes, notable_inputs, long_token_inputs)
+                      random_unicode, opener_mixes, notable_inputs, long_token_inputs, rule_samples)
 
 MC = """---- MODULE MC_LexScan ----
 EXTENDS LexScan
@@ -95,6 +95,7 @@ def run(ctx):
         mixes = rng.sample(mixes, 60000)
     texts += mixes
     texts += notable_inputs() + long_token_inputs()
+    texts += rule_samples(rng, 10 if quick else 60)
     fixtures = repo_texts()
     texts += [t[:400] for t in fixtures] + [t[i:i + 200] for t in fixtures for i in range(0, min(len(t), 2000), 200)]
     rec = LexRecorder()
